@@ -48,7 +48,7 @@ def gen_lease_requester(seed, opts=None):
     lease_times = []
     for _ in range(rng.randint(1, 6)):
         ttl = _pick(rng, [(2, rng.randint(1, 50)), (2, rng.randint(50, 1500)), (1, rng.randint(1500, 120_000)),
-                          (1, 0x7FFFFFFF)])
+                          (1, 0x7FFFFFFF), (1, 0)])  # 0: a lease that has expired the moment it arrives
         n = _pick(rng, [(1, 0), (3, rng.randint(1, 5)), (1, rng.randint(6, 40)), (1, 0x7FFFFFFF)])
         script.append({'at': t * MS, 'frame': {'t': 'LEASE', 'ttl_ms': ttl, 'n': n}})
         lease_times.append((t, ttl))
@@ -90,7 +90,7 @@ def gen_lease_responder(seed, opts=None):
     t = rng.randint(0, 20)
     for _ in range(rng.randint(1, 6)):
         ttl_ms = _pick(rng, [(2, rng.randint(1, 999)), (2, rng.choice([250, 500, 750, 1500, 1250, 2500])),
-                             (2, rng.randint(1000, 600_000)), (1, 0x7FFFFFFF)])
+                             (2, rng.randint(1000, 600_000)), (1, 0x7FFFFFFF), (1, 0)])
         n = _pick(rng, [(1, 0), (3, rng.randint(1, 100)), (1, 0x7FFFFFFF)])
         items.append({'at': t * MS, 'n': n, 'ttl_us': ttl_ms * 1000})
         t += rng.randint(1, 400)
@@ -434,7 +434,8 @@ def gen_setup_server(seed, opts=None):
         frame['lease'] = True
         cfg['lease_script'] = [{'at': 0.05, 'n': 5, 'ttl_us': 1_000_000}]
     elif variant == 'on_setup_raises':
-        cfg['buggify'] = {'on_setup': True}
+        # the handler fails with all sorts of exceptions, the library's own types included: always REJECTED_SETUP
+        cfg['buggify'] = {'on_setup': _pick(rng, [(3, True), (1, 'rsocket_app'), (1, 'rsocket_rejected'), (1, 'oserror'), (1, 'noargs')])}
     if variant == 'resume_frame':
         script.append({'at': 0.0, 'frame': {'t': 'RESUME', 'token': '0102'}})
     else:
